@@ -35,6 +35,14 @@ var stopKinds = []StopCase{
 	{Kind: "idle", Node: "aggregator"},
 	{Kind: "idle", Node: "fullnode"},
 	{Kind: "idle", Node: "aggregator", Lazy: true},
+	// the DA client hangs inside a listing call of the scan
+	{Kind: "blocked-retrieve", Node: "fullnode"},
+	// the submission helper waits out a long back-off (not included in a block: DA block time x mempool TTL)
+	{Kind: "submit-backoff", Node: "aggregator"},
+	// all timers of the configuration are an hour long: nothing but the stop request can end a wait
+	{Kind: "long-timers", Node: "aggregator"},
+	{Kind: "long-timers", Node: "aggregator", Lazy: true},
+	{Kind: "long-timers", Node: "fullnode"},
 }
 
 // runStop builds the situation, cancels, releases every double and requires every loop to return.
@@ -59,6 +67,15 @@ func runStop(r *vk.Run, c StopCase) {
 		GenesisTime: time.Now().Add(-time.Hour)}
 	if c.Kind == "startup-delay" {
 		opts.GenesisTime = time.Now().Add(time.Hour) // the production loop waits for the genesis time
+	}
+	if c.Kind == "submit-backoff" {
+		opts.MempoolTTL = 1_000_000 // back-off after "not included in a block" = 5 ms x 1 000 000
+	}
+	if c.Kind == "long-timers" {
+		opts.BlockTime, opts.DABlockTime, opts.LazyInterval = time.Hour, time.Hour, 2*time.Hour
+	}
+	if c.Kind == "blocked-retrieve" {
+		da.BlockRetrieve.Store(true)
 	}
 	var p *world.Produced
 	if c.Node == "fullnode" {
@@ -105,6 +122,9 @@ func runStop(r *vk.Run, c StopCase) {
 			for i := 0; i < 4; i++ {
 				da.ScriptSubmit(world.SubmitOutcome{Kind: "block"})
 			}
+		}
+		if c.Kind == "submit-backoff" {
+			da.SetDefaultSubmit("timeout")
 		}
 		loops.spawn("AggregationLoop", func() { n.M.AggregationLoop(ctx, errCh) })
 		loops.spawn("Reaper", func() { reaper.Start(ctx) })
@@ -189,6 +209,13 @@ func runStop(r *vk.Run, c StopCase) {
 		reachedPos = waitFor(60*time.Second, func() bool { return len(n.M.VerifDataInCh()) == world.EventChannelCapacity() })
 	case "mid-scan":
 		reachedPos = waitFor(20*time.Second, func() bool { return n.M.VerifDAHeight() > 50 })
+	case "blocked-retrieve":
+		reachedPos = waitFor(20*time.Second, func() bool { return da.RetrieveInFlight() > 0 })
+	case "submit-backoff":
+		reachedPos = waitFor(20*time.Second, func() bool { return da.SubmitCalls() > 0 })
+		time.Sleep(30 * time.Millisecond) // the helper is now waiting out its back-off
+	case "long-timers":
+		time.Sleep(80 * time.Millisecond)
 	}
 	if !reachedPos {
 		r.Inconclusive(fmt.Sprintf("stop scenario %s/%s: the logical position was not reached", c.Kind, c.Node))
